@@ -62,6 +62,7 @@ ApplyPt(x, p) ==
       [] x.k = "s2" -> <<2 * p[1], 2 * p[2], 2 * p[3]>>
       [] x.k = "sh" -> <<p[1] \div 2, p[2] \div 2, p[3] \div 2>>     \* coordinates are kept even before a halving
       [] x.k = "rz" -> <<-p[2], p[1], p[3]>>
+      [] x.k = "rx" -> <<p[1], -p[3], p[2]>>                         \* quarter turn about x (does not commute with rz / sw)
       [] x.k = "sw" -> <<p[2], p[1], p[3]>>                          \* matrix that swaps x and y
 RECURSIVE ApplyAll(_, _, _)
 ApplyAll(xf, i, p) == IF i > Len(xf) THEN p ELSE ApplyAll(xf, i + 1, ApplyPt(xf[i], p))
@@ -116,7 +117,8 @@ RayOK(q) ==
              t == FirstT(Boxes[w], q.o, q.d) IN
          /\ q.hit /\ q.exact /\ q.unit
          /\ q.t12 * t[2] = 12 * t[1]
-         /\ q.mat = w
+         \* (a part without a material of its own reports none: mat = 0)
+         /\ q.mat = (IF R.objs[w].bare THEN 0 ELSE w)
          /\ q.n = FirstNormal(Boxes[w], q.o, q.d)
 
 \* ---------------------------------------------------------------- shadows (segment p -> light)
